@@ -181,7 +181,7 @@ pub open spec fn tok_is(i: AssetInfo, who: Seq<char>) -> bool { i matches AssetI
     ensures
         /*[C02,C01,C03,C14,C12 hook.swap.amount]*/ decode::<Cw20HookMsg>(cw20_msg.msg) matches Ok(Cw20HookMsg::Swap { offer_asset, belief_price, max_spread, to }) ==> r is Ok ==>
             offer_asset.amount == cw20_msg.amount,
-        /*[C02,C14 hook.swap.sender-is-pool-token]*/ decode::<Cw20HookMsg>(cw20_msg.msg) matches Ok(Cw20HookMsg::Swap { offer_asset, belief_price, max_spread, to }) ==> r is Ok ==>
+        /*[C02,C14,C01,C03 hook.swap.sender-is-pool-token]*/ decode::<Cw20HookMsg>(cw20_msg.msg) matches Ok(Cw20HookMsg::Swap { offer_asset, belief_price, max_spread, to }) ==> r is Ok ==>
             old(deps.storage).pair_info is Some && exists|i0: AssetInfo, i1: AssetInfo| #![trigger raw_of(i0, old(deps.storage).pair_info->Some_0.asset_infos[0]), raw_of(i1, old(deps.storage).pair_info->Some_0.asset_infos[1])]
                 raw_of(i0, old(deps.storage).pair_info->Some_0.asset_infos[0]) && raw_of(i1, old(deps.storage).pair_info->Some_0.asset_infos[1])
                 && (tok_is(i0, info.sender.0@) || tok_is(i1, info.sender.0@)),
@@ -198,7 +198,7 @@ pub open spec fn tok_is(i: AssetInfo, who: Seq<char>) -> bool { i matches AssetI
                 let pi = old(deps.storage).pair_info->Some_0;
                 exists|i0: AssetInfo, i1: AssetInfo| #![trigger raw_of(i0, pi.asset_infos[0]), raw_of(i1, pi.asset_infos[1])] raw_of(i0, pi.asset_infos[0]) && raw_of(i1, pi.asset_infos[1])
                     && swap_guarded(deps.querier.world(), env.contract.address.0@, i0, i1, pi.asset_decimals, old(deps.storage).commission->Some_0.0.v(), offer_asset, belief_price, max_spread) }),
-        /*[C04,C14 hook.withdraw.only-lp-token]*/ decode::<Cw20HookMsg>(cw20_msg.msg) matches Ok(Cw20HookMsg::WithdrawLiquidity {}) ==> r is Ok ==>
+        /*[C04,C14,C03,C07 hook.withdraw.only-lp-token]*/ decode::<Cw20HookMsg>(cw20_msg.msg) matches Ok(Cw20HookMsg::WithdrawLiquidity {}) ==> r is Ok ==>
             old(deps.storage).pair_info is Some && canon_of(info.sender.0@) == old(deps.storage).pair_info->Some_0.liquidity_token.0@,
         /*[C04,C03,C07 hook.withdraw.pays]*/ decode::<Cw20HookMsg>(cw20_msg.msg) matches Ok(Cw20HookMsg::WithdrawLiquidity {}) ==> r is Ok ==>
             old(deps.storage).pair_info is Some && ({
@@ -209,7 +209,7 @@ pub open spec fn tok_is(i: AssetInfo, who: Seq<char>) -> bool { i matches AssetI
         /*[C14 hook.undecodable-rejected]*/ decode::<Cw20HookMsg>(cw20_msg.msg) is Err ==> r is Err,
         /*[C14,C07 hook.no-write]*/ *final(deps.storage) == *old(deps.storage),
 //%%loop 1
-                invariant /*[C02,C14 hook.loop.authorized]*/ authorized == ((it.index@ > 0 && tok_is(pools[0].info, info.sender.0@)) || (it.index@ > 1 && tok_is(pools[1].info, info.sender.0@))), 0 <= it.index@ <= 2,
+                invariant /*[C02,C14,C01,C03 hook.loop.authorized]*/ authorized == ((it.index@ > 0 && tok_is(pools[0].info, info.sender.0@)) || (it.index@ > 1 && tok_is(pools[1].info, info.sender.0@))), 0 <= it.index@ <= 2,
 //%end
 
 // ---- execute dispatch (C02: execute-swap only for native offers; C14 routing) ----
